@@ -186,7 +186,8 @@ def gen_call(rng, plots=True):
             sc = [rng.choice(SCALES) for _ in ch]
         return {'fn': 'hist_bins', 'obj': obj, 'ch': ch, 'nbins': nb, 'scale': sc}
     if fam == 'slice':
-        return {'fn': 'slice', 'obj': S, 'form': rng.choice(['events', 'channels', 'view', 'copy', 'mask', 'deepcopy'])}
+        return {'fn': 'slice', 'obj': S, 'form': rng.choice(['events', 'channels', 'view', 'copy', 'mask', 'deepcopy',
+                                                              'listkey', 'rowlist'])}
     if fam == 'to_rfi':
         if rng.chance(0.3):
             k = rng.randint(1, 3)
@@ -273,7 +274,7 @@ def gen_call(rng, plots=True):
         return {'fn': 'plot_violin', 'obj': rng.choice([S, 'rfi', 'mef']), 'dose': rng.chance(0.4), 'ch': rng.choice(['FL1-H', 'FL2-H']),
                 'positions': rng.choice([[1.0, 2.0], [0.0, 10.0], [0, 1, 100], [5, 0, 50]]),
                 'xscale': rng.choice([None, 'linear', 'log']), 'yscale': rng.choice([None, 'linear', 'log', 'logicle']),
-                'vert': rng.chance(0.8), 'oned': rng.chance(0.3)}
+                'vert': rng.chance(0.8), 'oned': rng.chance(0.3), 'lists': rng.chance(0.4)}
     return {'fn': 'plot_std_crv'}
 
 
@@ -301,7 +302,7 @@ def canonical_queries(obj):
     for st in ('mean', 'gmean', 'median', 'mode', 'std', 'cv', 'gstd', 'gcv', 'iqr', 'rcv'):
         for ch in ([None] if one else [None, c1]):
             q.append({'fn': 'stats', 'obj': obj, 'stat': st, 'ch': ch})
-    for f in ('events', 'channels', 'view', 'copy', 'mask', 'deepcopy'):
+    for f in ('events', 'channels', 'view', 'copy', 'mask', 'deepcopy') + (() if one else ('listkey', 'rowlist')):
         q.append({'fn': 'slice', 'obj': obj, 'form': f})
     if not one:
         q.append({'fn': 'to_rfi', 'obj': obj, 'ch': None})
@@ -372,6 +373,15 @@ def build_call(F, op, target, pool, beads=None):
             return Call(lambda: T[:, 1:4], watch=[T], shares='buffer', label='FCSData.__getitem__')
         if f == 'mask':
             return Call(lambda: T[np.arange(T.shape[0]) % 2 == 0], watch=[T], label='FCSData.__getitem__')
+        if f == 'listkey':
+            # a caller-owned list of channel names and positions used as the column key
+            key = ['FL1-H', 0, 'SSC-H'] if T.ndim == 2 and T.shape[1] >= 3 and hasattr(T, 'channels') else [0]
+            if T.ndim != 2:
+                return Call(lambda: T[key], watch=[T, key], label='FCSData.__getitem__')
+            return Call(lambda: T[:, key], watch=[T, key], label='FCSData.__getitem__')
+        if f == 'rowlist':
+            rows = [3, 1, 7]
+            return Call(lambda: T[rows], watch=[T, rows], label='FCSData.__getitem__')
         if f == 'view':
             return Call(lambda: T.view(), watch=[T], shares='buffer', label='FCSData.view')
         if f == 'deepcopy':
@@ -500,12 +510,22 @@ def build_call(F, op, target, pool, beads=None):
         for key in ('xscale', 'yscale'):
             if op.get(key) is not None:
                 kw[key] = op[key]
+        extra_watch = []
+        if op.get('lists'):
+            # caller-owned per-violin parameter lists (one entry per violin)
+            kw['upper_trim_fraction'] = [0.01 + 0.01 * i for i in range(len(pos))]
+            kw['lower_trim_fraction'] = [0.02 + 0.01 * i for i in range(len(pos))]
+            kw['violin_kwargs'] = [{'facecolor': 'gray', 'edgecolor': 'black', 'linewidth': 1 + i} for i in range(len(pos))]
+            kw['draw_summary_stat_kwargs'] = [{'color': 'black', 'linewidth': 1 + i} for i in range(len(pos))]
+            extra_watch = [kw['upper_trim_fraction'], kw['lower_trim_fraction'], kw['violin_kwargs'],
+                           kw['draw_summary_stat_kwargs']]
         if op['dose']:
             kw.update(min_data=(T[5:25] if not op.get('oned') else T[5:25][:, op['ch']]))
             kw.setdefault('xscale', 'log')
-            return Call(F.plot.violin_dose_response, [data], kw, watch=[T, data, pos], label='plot.violin_dose_response')
+            return Call(F.plot.violin_dose_response, [data], kw, watch=[T, data, pos] + extra_watch,
+                        label='plot.violin_dose_response')
         kw['vert'] = op.get('vert', True)
-        return Call(F.plot.violin, [data], kw, watch=[T, data, pos], label='plot.violin')
+        return Call(F.plot.violin, [data], kw, watch=[T, data, pos] + extra_watch, label='plot.violin')
     if fn == 'plot_std_crv':
         mef = np.array([800, 2500, 8000, 25000, 80000.])
         rfi = np.exp((np.log(mef) - 2.0) / 1.05)
